@@ -64,7 +64,7 @@ def run(ctx, report):
 
     R4 = report.rule('C05.D4', 'rewrite rules fire only under their algebraic side condition and re-base slices exactly ((A & m) >> s, rotations, ==, parity, slice of '
                      'constant / slice / concatenation / memory, conditional on a constant, nested forms: evaluated on boundary constants and byte-grid boundaries)', floor=12)
-    simpeval.emit(R4, ctx, lambda l: l.startswith(('mask-shift', 'rot', 'eq', 'parity', 'slice:', 'cond', 'nested')) , KINDS,
+    simpeval.emit(R4, ctx, lambda l: l.startswith(('mask-shift', 'rot', 'eq', 'parity', 'slice:', 'cond', 'nested', 'width-twins')) , KINDS,
                   key_map={('rot-merge-mixed', 'ill-typed'): 'rewrite:rot-merge:width'})
 
     R5 = report.rule('C05.D5', 'the simplifier returns on every well-typed member of the family: no KeyError from the width->integer-type table (odd slice widths, 24-bit '
